@@ -697,7 +697,9 @@ def model_check(cfg: dict, props: list[str], workers: int = 4, timeout: int = 14
                 state = {"raw": js[:800]}
             res.viols.append({"formula": formula, "act": actn, "state": state})
         if coverage:
-            cov = r.coverage()
+            cov: dict[str, int] = {}
+            for m in re.finditer(r"<(\w+) line \d+, col \d+ to line \d+, col \d+ of module \w+(?: \([\d ]+\))?>: (\d+):(\d+)", r.out):
+                cov[m.group(1)] = cov.get(m.group(1), 0) + int(m.group(3))
             res.coverage = {a: cov.get(n, 0) for a, n in MC_ACTIONS.items()}
         if r.rc != 0 or r.errors or not r.distinct:
             res.machinery = "\n".join(r.errors[:5]) + "\n" + r.out[-2500:]
